@@ -2,5 +2,5 @@
    Only ExtrOcamlBasic's directives are used; Z, positive, N, nat, byte stay inductive. *)
 Require Extraction.
 Require Import ExtrOcamlBasic.
-From Z80V Require Import Gen.Exec Spec.Exec.
-Extraction "model.ml" Gen.Exec.Step Spec.Exec.step_instr Spec.Exec.spec_step GPR_GetFlag GPR_SetFlag GPR_ResetFlag Register_SetU16 Register_U16 mk_Unspec.
+From Z80V Require Import Gen.Exec Gen.Run Spec.Exec.
+Extraction "model.ml" Gen.Exec.Step Gen.Run.Run_iter Gen.Run.Run_enter Spec.Exec.step_instr Spec.Exec.spec_step GPR_GetFlag GPR_SetFlag GPR_ResetFlag Register_SetU16 Register_U16 mk_Unspec.
